@@ -14,6 +14,7 @@ import (
 	"sync"
 	"time"
 
+	jsonpatch "github.com/evanphx/json-patch"
 	asv1 "github.com/pingcap/advanced-statefulset/client/apis/apps/v1"
 	pcfake "github.com/pingcap/advanced-statefulset/client/client/clientset/versioned/fake"
 	pcinformers "github.com/pingcap/advanced-statefulset/client/client/informers/externalversions"
@@ -75,24 +76,25 @@ func (discardRecorder) AnnotatedEventf(runtime.Object, map[string]string, string
 
 // Call is one API request issued while the world was active.
 type Call struct {
-	Verb     string // create|update|patch|delete|get|list
-	Resource string // pods|persistentvolumeclaims|controllerrevisions|statefulsets|bstatefulsets
-	Sub      string // "" or "status"
-	Name     string
-	NS       string                // namespace of the request
-	Key      string                `json:"-"` // map key of the target (name, namespace-qualified outside the default namespace)
-	ID       string                // verb resource[/sub] name #n  (n-th occurrence in this reconcile)
-	Obj      runtime.Object        `json:"-"` // submitted object (create/update)
-	Patch    string                // patch body
-	Selector string                // list selector
-	Target   runtime.Object        `json:"-"` // API object of that name just before the call (nil if absent)
-	Result   runtime.Object        `json:"-"`
-	Err      string                // "" on success, else the status reason / message
-	ErrObj   error                 `json:"-"`
-	Fault    string                // injected fault kind, if any
-	Deleted  bool                  // delete calls: object removed at once (vs. graceful)
-	Applied  bool                  // the call took effect in the API (even if its response was lost or the process died)
-	DelOpts  *metav1.DeleteOptions `json:",omitempty"`
+	Verb      string // create|update|patch|delete|get|list
+	Resource  string // pods|persistentvolumeclaims|controllerrevisions|statefulsets|bstatefulsets
+	Sub       string // "" or "status"
+	Name      string
+	NS        string         // namespace of the request
+	Key       string         `json:"-"` // map key of the target (name, namespace-qualified outside the default namespace)
+	ID        string         // verb resource[/sub] name #n  (n-th occurrence in this reconcile)
+	Obj       runtime.Object `json:"-"` // submitted object (create/update)
+	Patch     string
+	PatchType string                // patch body
+	Selector  string                // list selector
+	Target    runtime.Object        `json:"-"` // API object of that name just before the call (nil if absent)
+	Result    runtime.Object        `json:"-"`
+	Err       string                // "" on success, else the status reason / message
+	ErrObj    error                 `json:"-"`
+	Fault     string                // injected fault kind, if any
+	Deleted   bool                  // delete calls: object removed at once (vs. graceful)
+	Applied   bool                  // the call took effect in the API (even if its response was lost or the process died)
+	DelOpts   *metav1.DeleteOptions `json:",omitempty"`
 }
 
 func (c *Call) IsWrite() bool { return c.Verb != "get" && c.Verb != "list" }
@@ -409,7 +411,8 @@ func (w *World) react(action clienttesting.Action) (bool, runtime.Object, error)
 	case clienttesting.PatchAction:
 		c.Name = a.GetName()
 		c.Patch = string(a.GetPatch())
-		if a.GetPatchType() != types.StrategicMergePatchType {
+		c.PatchType = string(a.GetPatchType())
+		if a.GetPatchType() != types.StrategicMergePatchType && a.GetPatchType() != types.MergePatchType {
 			panic(HarnessError{"unmodelled patch type " + string(a.GetPatchType())})
 		}
 	case clienttesting.DeleteActionImpl:
@@ -762,7 +765,14 @@ func (w *World) patch(c *Call, cur runtime.Object) (runtime.Object, error) {
 	default:
 		panic(HarnessError{"unmodelled patch on " + c.Resource})
 	}
-	out, err := strategicpatch.StrategicMergePatch(orig, []byte(c.Patch), n)
+	var out []byte
+	var err error
+	if c.PatchType == string(types.MergePatchType) || c.Resource == "statefulsets" {
+		// custom resources know no strategic merge; a JSON merge patch writes what it names and leaves the rest
+		out, err = jsonpatch.MergePatch(orig, []byte(c.Patch))
+	} else {
+		out, err = strategicpatch.StrategicMergePatch(orig, []byte(c.Patch), n)
+	}
 	if err != nil {
 		return nil, apierrors.NewBadRequest("patch failed: " + err.Error())
 	}
